@@ -145,6 +145,18 @@ impl<'tcx> Cx<'tcx> {
             }
             _ => {}
         }
+        let static_did = match c.const_ {
+            mir::Const::Val(mir::ConstValue::Scalar(rustc_middle::mir::interpret::Scalar::Ptr(ptr, _)), _) => {
+                match self.tcx.try_get_global_alloc(ptr.provenance.alloc_id()) {
+                    Some(rustc_middle::mir::interpret::GlobalAlloc::Static(d)) => Some(d),
+                    _ => None,
+                }
+            }
+            _ => None,
+        };
+        if let Some(sdid) = static_did {
+            return format!("{{\"static\":{},\"ty\":{}}}", js(&self.path(sdid)), js(&self.tys(ty)));
+        }
         let tenv = TypingEnv::post_analysis(self.tcx, owner);
         let tys = self.tys(ty);
         if ty.is_integral() || ty.is_bool() || ty.is_char() {
